@@ -370,6 +370,73 @@ def rule_rewrite(ctx) -> None:
         ctx.check(ok, "C16.REWRITE", f"{fn.qual}/payload-join", fn.loc(c), "payload is ''.join(lines)", f"payload is `{src(inl)[:50] if inl is not None else ''}`")
 
 
+def rule_rewrite_bytes(ctx) -> None:
+    """what rewrite_jsonl joins is what reaches the file: inside atomic_write_text the text is only re-terminated.  json.dumps
+    escapes every control character (also with ensure_ascii=False), so a `.replace` whose *search* string consists of control
+    characters and whose replacement still contains the LF can only touch the terminators the writer added.  Anything else -
+    `str.splitlines()` (which also splits on U+0085 / U+2028 / U+2029, legal raw inside a JSON string), strip, a regex - can
+    cut or alter a record: compaction then no longer keeps one complete line per record."""
+    rw = ctx.func(LOGMOD + ":rewrite_jsonl")
+    aw = find_calls(ctx, rw, lambda c, nm: nm.endswith(":atomic_write_text"))
+    if not aw:
+        raise AnalysisError("anchor-vanished: rewrite_jsonl no longer calls atomic_write_text")
+    call = aw[0][1]
+    r = ctx.prog.callee(rw, call)
+    fn = ctx.func(r[1])
+    rd = ctx.rd(fn)
+    tparam = fn.params[1]
+    # constant arguments of the call (newline='\n', encoding='utf-8')
+    passed = {k.arg: k.value.value for k in call.keywords if k.arg and isinstance(k.value, ast.Constant)}
+
+    def ctrl_only(v) -> bool:
+        return isinstance(v, str) and v != "" and all(ord(ch) < 0x20 for ch in v)
+
+    def value_of(e: ast.AST):
+        if isinstance(e, ast.Constant):
+            return e.value
+        if isinstance(e, ast.Name) and e.id in passed:
+            return passed[e.id]
+        return None
+
+    n_tr = 0
+    names = {tparam}
+    for d in rd.all_defs:
+        if d.name != tparam or d.kind in ("param",):
+            continue
+        n_tr += 1
+        v = d.value
+        key = ctx.okey(f"{fn.qual}/text-transform-keeps-records")
+        where = fn.loc(d.node.ast)
+        if d.kind == "aug" and isinstance(d.node.ast, ast.AugAssign) and isinstance(d.node.ast.op, ast.Add) and ctrl_only(value_of(d.node.ast.value)) and "\n" in value_of(d.node.ast.value):
+            ctx.holds("C16.REWRITE", key, where, "a terminator is appended")
+            continue
+        ok = isinstance(v, ast.Call)
+        cur = v
+        while ok and isinstance(cur, ast.Call):  # a chain of .replace(ctrl, ctrl-with-LF) calls on the payload
+            if not (isinstance(cur.func, ast.Attribute) and cur.func.attr == "replace" and len(cur.args) == 2):
+                ok = False
+                break
+            a, b = value_of(cur.args[0]), value_of(cur.args[1])
+            ok = ctrl_only(a) and isinstance(b, str) and "\n" in b and ctrl_only(b)
+            cur = cur.func.value
+        ok = ok and isinstance(cur, ast.Name) and cur.id == tparam
+        if ok:
+            ctx.holds("C16.REWRITE", key, where, f"`{src(v)[:50]}` rewrites control characters only (never raw inside a JSON record) and keeps the LF")
+        else:
+            ctx.violation("C16.REWRITE", key, where,
+                          f"`{src(d.node.ast)[:70]}` transforms the payload between rewrite_jsonl and the file by something other than a control-character `.replace` that keeps the LF: "
+                          "e.g. str.splitlines() also breaks at U+0085 / U+2028 / U+2029, which json.dumps(ensure_ascii=False) leaves raw inside string values, so a compacted record is "
+                          "cut into two incomplete lines")
+    sinks = find_calls(ctx, fn, lambda c, nm: nm.endswith(":atomic_write_bytes"))
+    ctx.floor("C16.REWRITE", "byte sinks of atomic_write_text", len(sinks), 1)
+    for n, c in sinks:
+        a = c.args[1] if len(c.args) > 1 else None
+        ok = isinstance(a, ast.Call) and isinstance(a.func, ast.Attribute) and a.func.attr == "encode" and isinstance(a.func.value, ast.Name) and a.func.value.id == tparam
+        ctx.check(ok, "C16.REWRITE", f"{fn.qual}/bytes-are-the-text", fn.loc(c), "the bytes written are text.encode(encoding) of the re-terminated payload",
+                  f"the bytes handed to atomic_write_bytes are `{src(a)[:50] if a is not None else ''}`, not the encoded payload")
+    ctx.floor("C16.REWRITE", "rebindings of the payload inside atomic_write_text", n_tr, 1)
+
+
 # -------------------------------------------------------------------- ROT
 def _fmt_parts(e: ast.AST):
     """f-string -> list of ('s', text) / ('v', expr)"""
@@ -487,4 +554,5 @@ def run(ctx) -> None:
     rule_norm(ctx)
     rule_order(ctx)
     rule_rewrite(ctx)
+    rule_rewrite_bytes(ctx)
     rule_rot(ctx)
